@@ -309,6 +309,9 @@ func (g *GroupWorld) bootstrap() {
 	g.phaseLeft = 1 + s.Intn(8)
 	// initial workload
 	g.load = []float64{0.7, 0.15, 0.4, 1.3}[s.Pick(3, 3, 3, 2)]
+	if g.cfg.BigGroup && n < 10 {
+		g.load = 2.5 // room to grow by tens of nodes: keep the demand coming
+	}
 	pods := int(float64(s.Intn(3*(n+1))) * g.load)
 	for k := 0; k < pods; k++ {
 		g.spawnPod(s, false)
@@ -501,6 +504,13 @@ func podRequestLib(p *v1.Pod) (cpu, mem int64) {
 	return
 }
 
+func boolInt(b bool) int {
+	if b {
+		return 1
+	}
+	return 0
+}
+
 func hasTaintKey(n *v1.Node, key string) bool {
 	for _, t := range n.Spec.Taints {
 		if t.Key == key {
@@ -680,7 +690,7 @@ func (g *GroupWorld) tick() {
 			g.phase = s.Pick(3, 3, 2, 2, 1)
 			g.phaseLeft = 2 + s.Intn(12)
 		}
-		if s.Chance(phaseArrive[g.phase]*g.load) && len(g.groupPods()) < 60 {
+		if s.Chance(phaseArrive[g.phase]*g.load) && len(g.groupPods()) < 60+4*g.cfg.Max*boolInt(g.cfg.BigGroup) {
 			k := 1 + s.Intn(phaseBurst[g.phase])
 			for j := 0; j < k; j++ {
 				g.spawnPod(s, false)
